@@ -253,7 +253,10 @@ pub fn write_integer(integer: u32, s: &mut dyn Write) -> RdpResult<()> {
 pub fn read_integer_16(minimum: u16, s: &mut dyn Read) -> RdpResult<u16> {
     let mut result = U16::BE(0);
     result.read(s)?;
-    Ok(result.inner() + minimum)
+    match result.inner().checked_add(minimum) {
+        Some(value) => Ok(value),
+        None => Err(Error::RdpError(RdpError::new(RdpErrorKind::InvalidData, "PER: integer16 out of range")))
+    }
 }
 
 /// This is a convenient method for PER encoding
